@@ -283,6 +283,11 @@ def gen_scenario(rng, size):
             for _ in range(n):
                 recs = [[rng.choice([0, 1, 1, 2, 3, 4]), rng.choice([1, 5, 40, 40, 150, 400])]
                         for _ in range(rng.choice([1, 1, 2]))]
+                r2 = rng.random()
+                if r2 < 0.03:
+                    recs[-1][1] = rng.choice([16300, 17000, 33000])    # beyond one READCHUNK
+                elif r2 < 0.06:
+                    recs[-1][1] = -16384                               # end exactly on a chunk boundary
                 steps.append(dict(op='commit', recs=recs))
         elif r < 0.46:
             steps.append(dict(op='pack', back=rng.choice([0, 0, 1, 2, 5]), gc=rng.random() < 0.4))
@@ -424,7 +429,19 @@ class Run:
                 prev = self.fs.getTid(p64(oid))
             except KeyError:
                 prev = z64
-            self.fs.store(p64(oid), prev, zodb_pickle(MinPO('v%d-' % self.ntid + 'x' * size)), '', t)
+            if size < 0:
+                # fill: make the file end exactly at the next multiple of |size| bytes (repozo reads
+                # and copies in chunks of READCHUNK = 16384 bytes); only as the last record
+                unit = -size
+                tag = 'v%d-' % self.ntid
+                over = len(zodb_pickle(MinPO(tag + 'x' * 1000))) - 1000
+                pos = self.fs.getSize() + 23 + 8 + 42 * len(seen) + getattr(self, '_tsize', 0)
+                target = (pos + over + 300 + unit - 1) // unit * unit
+                size = target - pos - over
+            data = zodb_pickle(MinPO('v%d-' % self.ntid + 'x' * size))
+            self._tsize = getattr(self, '_tsize', 0) + len(data)
+            self.fs.store(p64(oid), prev, data, '', t)
+        self._tsize = 0
         self.fs.tpc_vote(t)
         return t, tid
 
